@@ -11,7 +11,9 @@ import GaeaVerif.Lemmas.SessConnsInv
   call may fail; a statement may time out or stream its result) and its own
   map-iteration order; the theorems quantify over all of them, for every
   configuration (keep-session or not, every kind of user, with and without
-  fallback to the master).
+  fallback to the master).  No theorem of this file has a hypothesis on the
+  faults any more: the one defect that needed it
+  (shard-timeout-conn-returned-in-flight) is repaired by fix e307c15.
 
   The theorems are consequences of one invariant (`Idle`, Lemmas/SessConnsInv):
   between two commands the connections that are out are exactly the ones the
@@ -81,29 +83,30 @@ theorem end_clean (cfg : Cfg) (ops : List Op) (hcl : (run cfg ops).closed = true
   have hcn : (run cfg ops).w.conns[i]? = some c := by rw [List.getElem?_eq_getElem hi, hget]
   exact hI.inv.wi.ret i c hcn (by simp [held, htx, hks, CMap.vals])
 
-/-- FULL STATEMENT (false of the pinned tree, see `return_in_flight_witness`):
-      ∀ cfg ops, ∀ c ∈ (run cfg ops).w.conns, c.rif = false
-    i.e. no connection is given back while one of its statements is still in
-    flight.  Proved here for histories without statement timeouts; what is
-    missing is the sharded path (executeMultipleSQLInSlice), which reports the
-    timeout and lets the connection be recycled while its worker still waits. -/
-theorem no_return_in_flight_partial (cfg : Cfg) (ops : List Op) (hT : ∀ op ∈ ops, NoTOp op) :
+/-- No connection is ever given back while one of its statements is still in
+    flight, and between two commands no statement is in flight at all - for
+    every configuration and every history, statement timeouts on both execution
+    paths included: a timeout closes the connection before anything else happens
+    to it (`executeUnshardSQLInSlice`; `executeMultipleSQLInSlice` since fix
+    e307c15). -/
+theorem no_return_in_flight (cfg : Cfg) (ops : List Op) :
     ∀ c ∈ (run cfg ops).w.conns, c.inflight = false ∧ c.rif = false := by
   intro c hc
-  have h := (idle_run (q := { t := true, p := false }) cfg ops
-    (fun op hop => ⟨fun _ => hT op hop, fun h => by simp at h⟩)).inv.wi
+  have h := (idle_run_all cfg ops).inv.wi
   obtain ⟨i, hi, hget⟩ := List.mem_iff_getElem.1 hc
   exact h.quiet rfl i c (by rw [List.getElem?_eq_getElem hi, hget])
 
-/-- the history of the known finding: a sharded read outside a transaction, the
-    statement on slice 1 times out -/
+/-- the history of the former known finding `shard-timeout-conn-returned-in-flight`:
+    a sharded read outside a transaction, the statement on slice 1 times out -/
 def inFlightOps : List Op :=
   [{ body := .qs .r [0, 1], ord := [0, 1], faults := [{ k := .x, slice := 1, mode := .t }] }]
 
-/-- The pinned tree violates the full statement: after a statement timeout on
-    the sharded path the connection goes back to its pool in flight. -/
-theorem return_in_flight_witness :
-    ((run { ks := false, user := .w, fb := true } inFlightOps).w.conns.map (·.rif)) = [false, true] := by
+/-- On that history the repaired code (e307c15) closes the connection of slice 1
+    before it gives it back: it goes back closed, not in flight (the pinned tree
+    gave it back open with the worker still waiting on it). -/
+theorem timeout_conn_closed_before_return :
+    ((run { ks := false, user := .w, fb := true } inFlightOps).w.conns.map fun c => (c.closed, c.returns, c.rif)) =
+      [(false, 1, false), (true, 1, false)] := by
   decide
 
 /-! Non-vacuity: the hypotheses are satisfiable on non-trivial histories. -/
@@ -118,10 +121,23 @@ def demoOps : List Op :=
     { body := .quit, ord := [0, 1], faults := [] } ]
 
 example : (run { ks := false, user := .w, fb := true } demoOps).closed = true := by decide
-example : ((run { ks := false, user := .w, fb := true } demoOps).w.conns.map (·.returns)) = [1, 1, 1] := by decide
-example : ∀ op ∈ [demoOps[0], demoOps[1]], NoTOp op := by
-  intro op hop f hf
-  simp [demoOps] at hop
-  rcases hop with rfl | rfl <;> simp at hf
+example : ((run { ks := false, user := .w, fb := true } demoOps).w.conns.map (·.returns)) = [1, 1] := by decide
+/-- the timeout of the third command closed the session (the transaction lost its connection):
+    both connections of the transaction were given back once, nothing else was ever taken -/
+example : (run { ks := false, user := .w, fb := true } (demoOps.take 3)).closed = true := by decide
+example : ((run { ks := false, user := .w, fb := true } demoOps).w.conns.map (·.inflight)) = [false, false] := by decide
+
+/-- a statement answered with a further result pending and no rows pending
+    (SERVER_MORE_RESULTS_EXISTS: a stored procedure call): the connection stays
+    with the response writer, which reads the result from it, and is given back
+    once, afterwards (the seeded change C19-3 dropped the `MoreResultsExist` half
+    of `recycleBackendConn`'s guard: returned first, read afterwards, returned again) -/
+def moreResultsOps : List Op :=
+  [{ body := .qu .r, ord := [0, 1], faults := [{ k := .x, slice := 0, mode := .mres }] }]
+
+example : (run { ks := false, user := .w, fb := true } moreResultsOps).w.trace.reverse =
+    [.get true 0 (some 0), .call .U 0 .ok, .call .X 0 .mres, .call .N 0 .ok, .recycle 0] := by decide
+example : ((run { ks := false, user := .w, fb := true } moreResultsOps).w.conns.map
+    fun c => (c.returns, c.uar, c.moreRes, c.closed)) = [(1, false, false, false)] := by decide
 
 end GaeaVerif.C19
